@@ -43,12 +43,18 @@ claim('C12',
       'strings) to every file-system sink, for all path strings at once: each '
       'tainted sink is dominated by a raising sanitizer on the very value '
       'opened; containment tests between paths must be component-wise; the '
-      'load path never derives from cart text.',
+      'load path never derives from cart text; and the load-path lookup '
+      '(_locate_require_file) is evaluated on a recording stand-in file '
+      'system: every path it asks about is a load-path candidate (argument, '
+      'else PICO8_LUA_PATH, else the default; relative to the requiring '
+      'file unless absolute) and the first existing one is returned.',
       'Decided: presence, dominance, polarity and component-wise form of the '
-      'sanitizers; provenance of candidate paths. Not decided: symlinks, '
-      'non-POSIX separators; os.path normalisation semantics are trusted.',
+      'sanitizers; provenance of candidate paths; the lookup on eight '
+      'load-path configurations. Not decided: symlinks, non-POSIX '
+      'separators; os.path normalisation semantics are trusted.',
       'static analysis: interprocedural taint dataflow + CFG dominance of '
-      'raising guards + path-kind inference',
+      'raising guards + path-kind inference + abstract evaluation of the '
+      'lookup with a recording stand-in file system',
       'DESIGN.md section 4 C12')
 
 claim('C13',
@@ -56,14 +62,23 @@ claim('C13',
       'combinations at once by analysing the loop with the section name kept '
       'symbolic: which value is stored into result.<section> under which '
       'dominating tests, that four sibling section tables agree, and that '
-      'every failing exit precedes the single write.',
+      'every failing exit precedes the single write; and by evaluating '
+      'do_build on 67 argument configurations with the file system, the cart '
+      'reader / writer and the require machinery replaced by stand-ins whose '
+      'carts carry identity-tagged sections: every section of the written '
+      'cart is read off by identity (named source / empty cart / previous '
+      'OUT), failing configurations return non-zero without writing.',
       'Decided: section tables agreement, provenance and guarding of every '
       'store into the result cart, presence and dominance of the three '
       'validations, single write after the loop, option wiring for the '
-      'section options. Not decided: byte equality of sections in OUT (needs '
-      'the codecs, C03/C04); unreadable source carts.',
+      'section options; the evaluated configurations (each section alone x '
+      '{.p8, .p8.png, empty, .lua} x OUT present/absent x two output '
+      'formats, mixed assignments, seven failure cases). Not decided: byte '
+      'equality of sections in OUT (needs the codecs, C03/C04); unreadable '
+      'source carts.',
       'static analysis: symbolic attribute dataflow over the loop body + CFG '
-      'edge dominance + evaluated argparse/section tables',
+      'edge dominance + evaluated argparse/section tables + abstract '
+      'evaluation of do_build with recording stand-ins',
       'DESIGN.md section 4 C13')
 
 claim('C15',
@@ -141,7 +156,14 @@ claim('C14',
       'ranges; callbacks at the start / middle / end / adjacent / none / '
       'only, option on and off): the text handed to the re-parse is exactly '
       'the tokens outside the top-level callback definitions, in order, and '
-      'the re-parse is what is stored.',
+      'the re-parse is what is stored. Likewise evaluated: 17 require() call '
+      'shapes on stand-in nodes (name and option taken from the literal '
+      'arguments, every other form refused, other calls delegated), the '
+      'assembled cart text for stand-in packages (package table, one closed '
+      'function per package under its quoted name, the require function, '
+      'the main program), and package graphs (repeated, shared, chained, '
+      'cyclic requires: every name located, parsed and stored once; bad '
+      'names and missing files refused).',
       'Decided: the necessary conditions above; the strip for the listed '
       'package shapes with every token spelling symbolic (sampled in the '
       'statement layout, exhaustive in the token texts). Not decided: '
